@@ -46,6 +46,9 @@ pub enum StoreFault {
     /// a symbolic link named like a source file appears in a package directory: dangling (an
     /// editor lock file such as `.#x.gom`), pointing to itself (loop), or to a directory
     Symlink { path: String, kind: u8 },
+    /// one character of one string field of an artifact replaced (exact position): the header
+    /// fields a reader validates and echoes in its messages (names, versions, hashes)
+    FieldChar { path: String, pointer: String, at: usize, ch: char },
 }
 
 #[derive(Clone, Debug, serde::Serialize, serde::Deserialize)]
@@ -72,6 +75,8 @@ pub struct Observed {
     pub problems: Vec<(String, String)>, // (class, detail)
     /// files the operation created or changed (path -> digest), when it reported success
     pub written: Option<BTreeMap<String, String>>,
+    /// sandbox-relative paths the operation opened
+    pub opened: std::collections::BTreeSet<String>,
 }
 
 fn apply_store_fault(sb: &Sandbox, f: &StoreFault) -> bool {
@@ -155,6 +160,20 @@ fn apply_store_fault(sb: &Sandbox, f: &StoreFault) -> bool {
             };
             std::os::unix::fs::symlink(target, &full).is_ok()
         }
+        StoreFault::FieldChar { path, pointer, at, ch } => {
+            let Some(b) = sb.read(path) else { return false };
+            let Ok(mut doc) = serde_json::from_slice::<Value>(&b) else { return false };
+            let Some(Value::String(st)) = doc.pointer(pointer).cloned() else { return false };
+            let mut cs: Vec<char> = st.chars().collect();
+            if cs.is_empty() {
+                return false;
+            }
+            let i = (*at).min(cs.len() - 1);
+            cs[i] = *ch;
+            *doc.pointer_mut(pointer).unwrap() = Value::String(cs.into_iter().collect());
+            sb.write(path, serde_json::to_string_pretty(&doc).unwrap().as_bytes());
+            true
+        }
         StoreFault::FlipAt { path, at, bit } => match sb.read(path) {
             Some(mut b) if !b.is_empty() => {
                 let i = (*at).min(b.len() - 1);
@@ -196,6 +215,7 @@ pub fn execute(sb: &Sandbox, base: &Files, op: &OpSpec, plan: &FaultPlan) -> Obs
     for e in &res.log {
         *counts.entry(e.call).or_insert(0) += 1;
     }
+    let opened: std::collections::BTreeSet<String> = res.log.iter().filter(|e| e.call == "open").filter_map(|e| e.path.strip_prefix("/sim/").map(|x| x.to_string())).collect();
     let mut problems = Vec::new();
     match &res.exit {
         Exit::Panicked(m) => problems.push(("panic".to_string(), sb.normalise(m))),
@@ -252,7 +272,7 @@ pub fn execute(sb: &Sandbox, base: &Files, op: &OpSpec, plan: &FaultPlan) -> Obs
         }
         written = Some(w);
     }
-    Observed { exit: res.exit, counts, syscalls: res.syscalls, fired: res.fired, problems, written }
+    Observed { exit: res.exit, counts, syscalls: res.syscalls, fired: res.fired, problems, written, opened }
 }
 
 /// `execute`, plus the comparison with what the fault-free run of the same operation wrote: under
@@ -563,7 +583,7 @@ struct CaseResult {
 /// well-formed), the first path segment of that field, e.g. "/core_ir".
 fn altered_artifact_field(base: &Files, plan: &FaultPlan) -> Option<String> {
     let path = match &plan.store {
-        StoreFault::Bytes { path, .. } | StoreFault::Field { path, .. } | StoreFault::FlipAt { path, .. } => path,
+        StoreFault::Bytes { path, .. } | StoreFault::Field { path, .. } | StoreFault::FlipAt { path, .. } | StoreFault::FieldChar { path, .. } => path,
         _ => return None,
     };
     if !(path.ends_with(".core") || path.ends_with(".interface")) {
@@ -707,6 +727,41 @@ fn check_case(sb: &Sandbox, opts: &Opts, idx: usize, case: &Case, per_op: usize,
                     plans.push(FaultPlan { store: StoreFault::Symlink { path: name, kind }, spec: clean_spec.clone() });
                 }
             }
+            // header fields of the artifacts this operation really opens: every character
+            // position of a string field (at most two levels deep, at most 80 characters) replaced
+            // by a multi-byte character. thorough: every such field; quick: one field, for one
+            // operation in four
+            if op.entry != "run" && (enumerate || (idx + oi) % 4 == 0) {
+                let arts: Vec<&String> = artifacts.iter().filter(|a| baseline.opened.contains(*a)).collect();
+                if !arts.is_empty() {
+                    let chosen: Vec<&String> = if enumerate { arts.clone() } else { vec![*p.pick(&arts)] };
+                    for path in chosen {
+                        let Some(doc) = base.get(path).and_then(|b| serde_json::from_slice::<Value>(b).ok()) else { continue };
+                        let mut fields: Vec<(String, usize)> = Vec::new();
+                        for ptr in faults::all_pointers(&doc) {
+                            if ptr.matches('/').count() > 2 {
+                                continue;
+                            }
+                            if let Some(Value::String(st)) = doc.pointer(&ptr) {
+                                let n = st.chars().count();
+                                if n > 0 && n <= 80 {
+                                    fields.push((ptr, n));
+                                }
+                            }
+                        }
+                        if fields.is_empty() {
+                            continue;
+                        }
+                        let picked: Vec<(String, usize)> = if enumerate { fields } else { vec![p.pick(&fields).clone()] };
+                        for (ptr, n) in picked {
+                            let ch = ['\u{e9}', '\u{4e2d}', '\u{1f600}'][p.usize(3)];
+                            for at in 0..n {
+                                plans.push(FaultPlan { store: StoreFault::FieldChar { path: path.clone(), pointer: ptr.clone(), at, ch }, spec: clean_spec.clone() });
+                            }
+                        }
+                    }
+                }
+            }
             let n_exact = if enumerate { 200 } else { 10 };
             for _ in 0..n_exact {
                 let path = (*p.pick(&pool)).clone();
@@ -741,6 +796,7 @@ fn check_case(sb: &Sandbox, opts: &Opts, idx: usize, case: &Case, per_op: usize,
                     StoreFault::TruncateAt { .. } => "stored:truncated-at-exact-offset",
                     StoreFault::FlipAt { .. } => "stored:bit-flipped-at-exact-offset",
                     StoreFault::Symlink { .. } => "stored:symlink-dangling-loop-or-dir",
+                    StoreFault::FieldChar { .. } => "stored:header-field-character-replaced",
                     StoreFault::None => "",
                 };
                 *r.fired.entry(kind.to_string()).or_insert(0) += 1;
